@@ -384,8 +384,21 @@ def gen_param_hierarchy(rng):
     if rng.random() < 0.3: rng.shuffle(args[npos:]) if False else None
     calls.append("PLeaf(T" + "".join(", " + a for a in args) + ")")
     npos_of.append(npos)
-  L += ["class PMid(Component):", "  def construct(s, T, sel):", "    s.i = InPort(T)"]
   half = max(1, ninst // 2)
+  if ninst >= 2 and rng.random() < 0.3:
+    # two elements of ONE list whose parameter tuples differ and have the same python hash ( hash(-1) == hash(-2),
+    # hash(0) == hash(2**61 - 1) ): a name / module cache keyed by a hash-and-interface comparison merges them
+    lo, hi = (0, half) if half >= 2 else (half, ninst)
+    if hi - lo >= 2:
+      a, b = rng.sample(range(lo, hi), 2)
+      j = rng.randrange(nd)
+      base = [rng.choice(pool) for _ in range(nd)]
+      x, y = rng.choice([(-1, -2), (-2, -1), (0, 2305843009213693951), (2305843009213693951, 0)])
+      for inst, v in ((a, x), (b, y)):
+        args = list(base); args[j] = v
+        calls[inst] = "PLeaf(T" + "".join(f", {q}" for q in args) + ")"; npos_of[inst] = nd
+      L.insert(1, 'HASHTWIN = True')
+  L += ["class PMid(Component):", "  def construct(s, T, sel):", "    s.i = InPort(T)"]
   L += [f"    s.o = [OutPort(T) for _ in range({ninst})]", "    if sel == 0:"]
   L.append("      s.l = [" + ", ".join(calls[:half]) + "]")
   L.append("    else:")
@@ -418,6 +431,7 @@ def param_stream(sh, backend, n, mech_fn, tag="param"):
       top = mod.PTop()
       for path, kw in mod.SETP:
         top.set_param(path, **kw); sh.count("set_param_overrides")
+      if getattr(mod, "HASHTWIN", False): sh.count("param_designs_with_hash_colliding_siblings")
       top.elaborate()
       r = judge_text(sh, backend, top, tag, src, (tag, case), mech_fn, ncyc=8, rng=rng, count_key="param_designs_cosimulated")
       if case < 1 and sh.idx == 0:
